@@ -938,6 +938,11 @@ def cat(tensors, dim=0):
 
     cores = []
 
+    # the result holds the entries of all the tensors: common (promoted) dtype
+    dtype = tensors[0].cores[0].dtype
+    for t in tensors[1:]:
+        dtype = tn.promote_types(dtype, t.cores[0].dtype)
+
     if tensors[0].is_ttm:
         pass
     else:
@@ -950,10 +955,10 @@ def cat(tensors, dim=0):
             if i == dim:
                 n = sum([t.N[dim] for t in tensors])
                 cores.append(tn.zeros(
-                    (r_sum[i], n, r_sum[i+1]), device=tensors[0].cores[0].device, dtype=tensors[0].cores[0].dtype))
+                    (r_sum[i], n, r_sum[i+1]), device=tensors[0].cores[0].device, dtype=dtype))
             else:
                 cores.append(tn.zeros((r_sum[i], tensors[0].N[i], r_sum[i+1]),
-                             device=tensors[0].cores[0].device, dtype=tensors[0].cores[0].dtype))
+                             device=tensors[0].cores[0].device, dtype=dtype))
 
             offset1 = 0
             offset2 = 0
